@@ -28,7 +28,7 @@ Subs2 == {"s2_ab_star", "s2_star_calls", "s2_star_dimall", "s2_c_stargb"}
 AllSrcs == {<<"m1">>, <<"m2">>, <<"m1", "m2">>, <<"m2", "m1">>, <<"m3">>} \cup {<<s>> : s \in Subs1 \cup Subs2}
            \cup {<<"m1", "s_calls">>, <<"s_ab", "m2">>, <<"s_star", "s_alias2">>, <<"m2", "s2_star_calls">>}
 AllConds == {"none", "b>1", "host", "and", "typed"}
-AllSchemas == (1..18) \cup (100..135) \cup (200..219)
+AllSchemas == (1..18) \cup (100..135) \cup (200..219) \cup (300..303)
 AllUnspec == {<<"*", "arg2", "", "">>, <<"a|b", "arg2", "", "">>, <<"*", "bin", "", "">>, <<"a|b", "bin", "", "">>,
               <<"*", "binw", "", "">>, <<"*", "paren", "", "">>, <<"*::tag", "arg", "mean", "">>,
               <<"*::tag", "arg", "count", "">>, <<"*::tag", "nest", "max", "mean">>}
@@ -124,7 +124,24 @@ Q_multicall_Srcs == OnlyM1
 Q_multicall_Conds == NoCond
 Q_multicall_Schemas == {5, 13, 18}
 
+\* more than 12 expanded columns (sort.Sort leaves insertion sort), a tag of the name of a field among them
+Q_wide_Cores == {F("*"), F("*::field"), F("*::tag"), F(".*"), A("*", "count"), Plain}
+Q_wide_GroupBys == {<<>>, <<"host">>, <<"a">>}
+Q_wide_Befores == None
+Q_wide_Afters == None
+Q_wide_Srcs == {<<"m1">>, <<"m1", "m2">>, <<"s_star">>}
+Q_wide_Conds == NoCond
+Q_wide_Schemas == 300..303
+
 \* ------------------------------------------------------------------ thorough
+T_wide_Cores == {F("*"), F("*::field"), F("*::tag"), F(".*"), F("a|b"), A("*", "count"), A(".*", "max"), N("*", "max", "mean"), Plain}
+T_wide_GroupBys == {<<>>, <<"host">>, <<"a">>, <<"*">>, <<".*">>, <<"time", "host">>}
+T_wide_Befores == {"", "a", "host::tag"}
+T_wide_Afters == None
+T_wide_Srcs == {<<"m1">>, <<"m1", "m2">>, <<"m2", "m1">>, <<"s_star">>, <<"s_stargb">>, <<"s2_ab_star">>}
+T_wide_Conds == NoCond
+T_wide_Schemas == 300..303
+
 T_positions_Cores == {F(k) : k \in AllKinds}
                      \cup {A(k, fn) : k \in {"*", "*::field", "^a", "a|b", ".*", "zz"}, fn \in AllFns}
                      \cup {N(k, n[1], n[2]) : k \in {"*", "a|b"}, n \in AllNests}
